@@ -26,7 +26,7 @@ from yaql.language import expressions
 
 import c07_sweep
 
-GEN = ["effects"]
+GEN = ["effects", "charclass", "lexfacts"]
 RULE = ("policy grid: every whitelist/blacklist entry of the pools (strings, regexes, predicates, junk) as singleton "
         "whitelist and blacklist x all probe names x 3 forms, every switch combination, remappings (str, 1-tuple, "
         "2-tuple; blacklisted or not) x sources/targets; then seeded random settings with multi-entry lists; routes: "
@@ -72,7 +72,7 @@ STR_ENTRIES = ["foo", "bar", "m_foo", "_x", "__class__", "alias", "zed", "", "x"
 FORMS = ["attr", "method", "index"]
 PROTO_ATTRS = {"__yaqlization__", "__class__"}
 
-EXN = {"ENoMatch": "ENoMatch", "EAttribute": "EAttribute", "EKey": "EKey", "EIndex": "EIndex", "EType": "EType"}
+EXN = {"ERuntime": "ERuntime", "ENoMatch": "ENoMatch", "EAttribute": "EAttribute", "EKey": "EKey", "EIndex": "EIndex", "EType": "EType"}
 
 
 def exn_class(e):
@@ -86,6 +86,8 @@ def exn_class(e):
         return "EAttribute"
     if isinstance(e, TypeError):
         return "EType"
+    if isinstance(e, RuntimeError):
+        return "ERuntime"
     return "Other:" + type(e).__name__
 
 
@@ -581,6 +583,236 @@ def correspondence(run):
         seen.add(what)
         report(run, c, obs, None)
     chain_correspondence(run, corpus.get("chain", []))
+    keyword_correspondence(run)
+    path_correspondence(run)
+    auto_correspondence(run)
+
+
+# ---------------------------------------------------------------------------
+# utils.is_keyword, the paths around the gate, one auto-yaqlization step
+# ---------------------------------------------------------------------------
+HEADER2 = ("From YV Require Import Gen.CharClass Gen.LexFacts Model.Lexer Model.Yaqlized Model.YaqlizedPaths.")
+CFG = "(default_cfg (fun _ => None))"
+KW_ALPHABET = list("__aZx9_ .-{}$0") + ["\u00e9", "\u00df", "\u03a9", "\u4e2d", "\u0663", "\u00b2", "\u0301", "\u203f",
+                                         "\U0001d7d8", "\u00aa", "\n", "(", "'"]
+
+
+def keyword_correspondence(run):
+    from yaql.language import utils as yutils
+    names = list(NAMES) + ["__", "_", "a__", "_a", "__a", "a b", "9a", "a9", "\u0663a", "a\u0663", "\u00e9t\u00e9", "__\u00e9"]
+    for _ in range(run.n(1500, 20000)):
+        k = run.rng.choice([1, 2, 2, 3, 3, 4, 6])
+        w = "".join(run.rng.choice(KW_ALPHABET) for _ in range(k))
+        names.append(run.rng.choice(["", "", "", "__", "_", "a__", "__\u00e9"]) + w)
+    terms, meta = [], []
+    for n in names:
+        obs = bool(yutils.is_keyword(n))
+        run.case(("is_keyword", n), nontrivial=n.startswith("_") or obs)
+        run.count("is_keyword:%s%s" % ("dunder:" if n.startswith("__") else "", obs))
+        terms.append("{| k_name := %s; k_obs := %s |}" % (gal.s(n), gal.boolean(obs)))
+        meta.append((n, obs))
+    bad = run.coq_mismatches(HEADER2, "kw_case", "(kw_ok %s)" % CFG, terms, shard=1500)
+    for i in bad[:3]:
+        n, obs = meta[i]
+        kind = "violation" if (n.startswith("__") and obs) else "mismatch"
+        run.fail(kind, "utils.is_keyword accepts a name starting with '__' (the call() keyword filter and the lexer no longer "
+                 "agree)" if kind == "violation" else "utils.is_keyword differs from the model of the keyword regex",
+                 {"keyword": n, "observed": obs, "theorems": ["C07_is_keyword_agrees_with_lexer", "C07_call_kwargs_filter"]})
+
+
+_REG = {}
+
+
+def registered_names():
+    if not _REG:
+        import gen_effects
+        _, regs = gen_effects.registry()
+        _REG["fn"] = sorted(set(name for _, name, fd in regs if fd.is_function))
+        _REG["meth"] = sorted(set(name for _, name, fd in regs if fd.is_method))
+    return _REG["fn"], _REG["meth"]
+
+
+PATH_KINDS = ["PProp", "PMeth", "PIndex", "PElvisProp", "PElvisMeth", "PCallFn", "PCallMeth"]
+PATH_FORM = {"PProp": "attr", "PElvisProp": "attr", "PMeth": "method", "PElvisMeth": "method", "PIndex": "index"}
+PATH_NAMES_UNREG = ["foo", "secret", "{receiver.secret}", "__class__", "nosuch", "_x", "bar", "alias"]
+PATH_NAMES_REG = ["len", "str", "isString", "toList", "first", "keys", "dict", "list", "coalesce", "bool", "int", "year",
+                  "select", "values", "isDict", "#indexer", "#property#year", "toUpper"]
+KW_KEYS = ["a", "x1", "__x", "{0}", "a b", "_y", "n\u00e9", "value", "__class__", ""]
+
+
+def run_path(c):
+    """c: {sargs, kind, name, kw:[keys], kwobj: bool} -> observation ('reach', m) | ('denied', cls) | ('ran',)"""
+    log = []
+    obj = make_probe(log, 0, None)
+    attach(obj, c["sargs"], False)
+    ctx = base_context().create_child_context()
+    ctx["obj"] = obj
+    ctx["n"] = c["name"]
+    ctx["kw"] = dict((k, obj if c.get("kwobj") else 1) for k in c.get("kw", []))
+    kind = c["kind"]
+    if kind in ("PCallFn", "PCallMeth"):
+        st = ENGINE("call($n, [$obj], $kw)" if kind == "PCallFn" else "call($n, [], $kw, $obj)")
+    elif kind.startswith("PElvis"):
+        st = ENGINE("$obj?.zzz" if kind == "PElvisProp" else "$obj?.zzz()")
+        node = st.expression.args[1]
+        if kind == "PElvisMeth":
+            node.name = c["name"]
+        else:
+            node.value = c["name"]
+    else:
+        st = subst_tree(PATH_FORM[kind], "tree", c["name"])
+    del log[:]
+    try:
+        st.evaluate(context=ctx)
+        err = None
+    except Exception as e:
+        err = e
+    touched = members_touched([x for x in log if x[0] == 0], False)
+    if touched:
+        if len(touched) != 1:
+            return None, "members touched: %r" % (touched,)
+        return ("reach", touched[0][2]), None
+    if err is None:
+        return ("ran",), None
+    cls = exn_class(err)
+    gated = c["sargs"] is not None and kind in PATH_FORM and c["sargs"][{"attr": "attrs", "method": "methods", "index": "indexer"}[PATH_FORM[kind]]]
+    if cls in ("ENoMatch", "ERuntime") or (gated and not cls.startswith("Other:")):
+        return ("denied", cls), None
+    return ("ran",), None
+
+
+def path_term(c, obs):
+    fns, meths = registered_names()
+    used = [c["name"], "#property#" + c["name"]]
+    rt, pt = tables([c["name"]], [c["sargs"]])
+    kw = gal.lst(gal.s(k) for k in c.get("kw", []))
+    if c["kind"] in ("PCallFn", "PCallMeth"):
+        path = gal.app(c["kind"], gal.s(c["name"]), kw if c.get("kw") else "(@nil name)")
+    else:
+        path = gal.app(c["kind"], gal.s(c["name"]))
+    o = {"reach": lambda: gal.app("PoReach", gal.s(obs[1])), "denied": lambda: gal.app("PoDenied", obs[1]), "ran": lambda: "PoRan"}[obs[0]]()
+    return ("{| pc_regex := %s; pc_pred := %s; pc_args := %s; pc_fns := %s; pc_meths := %s; pc_path := %s; pc_obs := %s |}" % (
+        table_term(rt), table_term(pt), gal.opt(c["sargs"], yargs_term),
+        gal.lst(gal.s(n) for n in used if n in fns) or "(@nil name)", gal.lst(gal.s(n) for n in used if n in meths) or "(@nil name)", path, o))
+
+
+def random_path(rng):
+    fns, meths = registered_names()
+    reg = [n for n in PATH_NAMES_REG if n in fns or n in meths]
+    r = rng.random()
+    if r < 0.55:
+        sa = None
+    elif r < 0.7:
+        sa = S(attrs=False, methods=False, indexer=False)
+    else:
+        sa = S(attrs=rng.random() < 0.6, methods=rng.random() < 0.6, indexer=rng.random() < 0.6,
+               black=[["s", "bar"]] if rng.random() < 0.5 else [], white=[["s", "foo"], ["s", "len"]] if rng.random() < 0.3 else [],
+               remap=[["alias", ["s", "foo"]]] if rng.random() < 0.4 else [])
+    kind = rng.choice(PATH_KINDS)
+    name = rng.choice(reg) if rng.random() < 0.4 else rng.choice(PATH_NAMES_UNREG)
+    c = {"sargs": sa, "kind": kind, "name": name}
+    if kind.startswith("PCall"):
+        c["kw"] = sorted(set(rng.choice(KW_KEYS) for _ in range(rng.choice([0, 0, 1, 1, 2, 3]))))
+        c["kwobj"] = rng.random() < 0.5
+    return c
+
+
+def path_correspondence(run):
+    todo = [random_path(run.rng) for _ in range(run.n(1500, 20000))]
+    terms, meta = [], []
+    for i, c in enumerate(todo):
+        obs, anomaly = run_path(c)
+        run.case(("path", c["sargs"], c["kind"], c["name"], tuple(c.get("kw", ()))), nontrivial=True)
+        run.count("path:" + c["kind"])
+        run.count("path-outcome:" + (obs[0] if obs else "anomaly") + (":" + obs[1] if obs and obs[0] == "denied" else ""))
+        if i % 499 == 0:
+            run.sample({"path": c, "observed": obs})
+        if anomaly:
+            run.fail("violation" if c["sargs"] is None else "mismatch",
+                     "a path around the gate touches the object: " + anomaly, {"path": c, "anomaly": anomaly})
+            continue
+        terms.append(path_term(c, obs))
+        meta.append((c, obs))
+    bad = run.coq_mismatches(HEADER2, "path_case", "(path_ok %s)" % CFG, terms, shard=400)
+    seen = set()
+    for i in bad:
+        c, obs = meta[i]
+        gated = c["sargs"] is not None and c["kind"] in PATH_FORM and c["sargs"][{"attr": "attrs", "method": "methods", "index": "indexer"}[PATH_FORM[c["kind"]]]]
+        if obs[0] == "reach" and not gated:
+            kind, what = "violation", ("a member of an object whose settings do not open this form (or that is not yaqlized) is "
+                                       "reached through %s" % c["kind"])
+        else:
+            kind, what = "mismatch", "path %s around the gate differs from the model" % c["kind"]
+        if what in seen:
+            continue
+        seen.add(what)
+        run.fail(kind, what, {"path": c, "observed": obs, "theorems": ["C07_fallback_never_reaches_host", "C07_call_never_reaches"]})
+
+
+def run_auto(c):
+    """c: {parent_auto, inst, cls, fixed: None|'builtin'|'frozen'} -> (instance slot, class slot) afterwards"""
+    marker = dict(yaqlize_attributes=True, yaqlize_methods=False, yaqlize_indexer=True, auto_yaqlize_result=False)
+
+    class Child(object):
+        if c["fixed"] == "frozen":
+            def __setattr__(self, n, v):
+                raise AttributeError("read-only")
+
+    if c["fixed"] == "builtin":
+        Child.__module__ = int.__module__
+    child = Child()
+    if c["inst"]:
+        object.__setattr__(child, yaqlization.YAQLIZATION_ATTR, yaqlization.build_yaqlization_settings(**marker))
+    if c["cls"]:
+        setattr(Child, yaqlization.YAQLIZATION_ATTR, yaqlization.build_yaqlization_settings(**marker))
+
+    class Parent(object):
+        foo = child
+
+        def get(self):
+            return child
+
+        def __getitem__(self, k):
+            return child
+
+    parent = Parent()
+    yaqlization.yaqlize(parent, auto_yaqlize_result=c["parent_auto"])
+    ctx = base_context().create_child_context()
+    ctx["obj"] = parent
+    ENGINE({"attr": "$obj.foo", "method": "$obj.get()", "index": "$obj[foo]"}[c["form"]]).evaluate(context=ctx)
+
+    def code(d):
+        st = d.get(yaqlization.YAQLIZATION_ATTR)
+        return 0 if st is None else (2 if st["autoYaqlizeResult"] else 1)
+    return code(child.__dict__), code(Child.__dict__)
+
+
+def auto_correspondence(run):
+    terms, meta = [], []
+    for pa in (True, False):
+        for inst in (True, False):
+            for cls in (True, False):
+                for fixed in (None, "builtin", "frozen"):
+                    for form in ("attr", "method", "index"):
+                        c = {"parent_auto": pa, "inst": inst, "cls": cls, "fixed": fixed, "form": form}
+                        try:
+                            obs = run_auto(c)
+                        except Exception as e:
+                            run.fail("mismatch", "auto-yaqlization step raised %s" % type(e).__name__, {"auto": c})
+                            continue
+                        run.case(("auto", pa, inst, cls, fixed, form), nontrivial=pa)
+                        run.count("auto:%s" % (obs,))
+                        terms.append("{| ac_parent_auto := %s; ac_inst := %s; ac_class := %s; ac_fixed := %s; ac_obs := (%s, %s) |}" % (
+                            gal.boolean(pa), gal.boolean(inst), gal.boolean(cls), gal.boolean(fixed is not None), gal.z(obs[0]), gal.z(obs[1])))
+                        meta.append((c, obs))
+    bad = run.coq_mismatches(HEADER2, "auto_case", "auto_ok", terms, shard=200)
+    for i in bad[:1]:
+        c, obs = meta[i]
+        loosened = (c["inst"] or c["cls"]) and (obs[0] == 2 or obs[1] == 2)
+        run.fail("violation" if loosened or obs[1] == 2 else "mismatch",
+                 "auto-yaqlization of a result wrote permissive settings over / beside an existing policy or onto a class "
+                 "(slots afterwards: instance %s, class %s; 0 none, 1 the host's, 2 automatic defaults)" % obs,
+                 {"auto": c, "observed": obs, "theorems": ["C07_auto_yaqlize_keeps_policy", "C07_auto_yaqlize_writes_only_fresh_instances"]})
 
 
 # ---------------------------------------------------------------------------
@@ -707,6 +939,23 @@ def replay(run, data):
         return not run.coq_mismatches(HEADER, "chain_case", "chain_ok", [chain_term(c, obs)])
     if "sweep" in d:
         return c07_sweep.replay(run, d["sweep"])
+    if "keyword" in d:
+        from yaql.language import utils as yutils
+        n = d["keyword"]
+        return not run.coq_mismatches(HEADER2, "kw_case", "(kw_ok %s)" % CFG,
+                                      ["{| k_name := %s; k_obs := %s |}" % (gal.s(n), gal.boolean(bool(yutils.is_keyword(n))))])
+    if "path" in d:
+        obs, anomaly = run_path(d["path"])
+        if anomaly:
+            return False
+        return not run.coq_mismatches(HEADER2, "path_case", "(path_ok %s)" % CFG, [path_term(d["path"], obs)])
+    if "auto" in d:
+        c = d["auto"]
+        obs = run_auto(c)
+        t = "{| ac_parent_auto := %s; ac_inst := %s; ac_class := %s; ac_fixed := %s; ac_obs := (%s, %s) |}" % (
+            gal.boolean(c["parent_auto"]), gal.boolean(c["inst"]), gal.boolean(c["cls"]), gal.boolean(c["fixed"] is not None),
+            gal.z(obs[0]), gal.z(obs[1]))
+        return not run.coq_mismatches(HEADER2, "auto_case", "auto_ok", [t])
     if "where" in d or "log" in d:
         import core
         import sys
